@@ -44,7 +44,7 @@ ASSUMPTIONS = ['nutils.element Reference.child_transforms/edge_transforms/child_
                '(>=0.2 element coordinates from the boundary) must be found, everything else may raise LocateError; located points must lie in their element within max(tol,eps)/0.5',
                'opposite(.) is only evaluated on interface topologies (structured boundaries carry opposites that point outside the domain)',
                'maxprocs=2 uses nutils.parallel fork; the located sample must satisfy the same oracle as for maxprocs=1']
-BUDGET_S = {'quick': 1500, 'thorough': 6000}
+BUDGET_S = {'quick': 3000, 'thorough': 9000}
 
 
 SEQ_COST = {'s2b': 9, 's2r': 8, 's2': 8, 's2p': 6, 's2i': 6, 'p2': 5, 'p2d': 5, 'i2': 3, 'i2m': 3, 's1r': 2, 's1': 1, 's1p': 1, 'i1': 1, 'p1e': 1}
@@ -136,7 +136,7 @@ def _run_seq(spec, tier, res):
                 res.maximum('max_sequence_length', len(model2))
                 res.distinct('state_kinds', S.seqkind(seq2))
                 if len(model2):
-                    res.distinct('distinct_nontrivial', json.dumps([base, [e.b for e in model2] and [list(map(repr, e.chain)) for e in model2[:3]], len(model2), S.seqkind(seq2)]))
+                    res.distinct('distinct_nontrivial', repr([base, [(e.b, e.path) for e in model2], S.seqkind(seq2)]))
                 if len(res.samples) < 3 and depth == 2:
                     res.sample({'part': 'seq', 'base': base, 'ops': ops2, 'len': len(model2), 'kind': S.seqkind(seq2)})
             else:
